@@ -79,12 +79,12 @@ register("C01", "other",
          "by composition with C05's label-removal theorem through comp_ok). Tie of (2) to the code: for generated core programs the "
          "captured pre-allocation code of the REAL transpiler must equal comp (flatten src) instruction for instruction (stream incore, 97-99 % of that profile inside the core, all of them equal on the clean tree); "
          "flatten (unproved, executable) is compared with the reference semantics per program; on a fragment of the source dialect (function-free programs of numbers, variables, operators, device reads, intrinsics, conditional expressions, "
-         "own-stack access, assignments, device writes, if/else, while, while True, break, continue, yield, sleep) the front end itself is proved: PV.Front (a structurally recursive flattener, equal to flatten per program: `front: same`, 65-70 % of the incore stream) "
+         "own-stack access, assignments, device writes, if/else on comparisons and truth tests, while, while True, break, continue, yield, sleep) the front end itself is proved: PV.Front (a structurally recursive flattener, equal to flatten per program: `front: same`, 65-70 % of the incore stream) "
          "preserves the reference semantics PV.Src (front_sound for runs that end, front_prefix for runs that go on), and source_to_chip_done / source_to_chip_running (and their _stripped versions) compose this with the model generator's theorem: the chip running the real "
          "pre-allocation code of such a program reaches exactly the effects of the SOURCE under the dialect semantics (hypotheses on the value domain: SemOk, proved for the integers, evaluated on the chip's floats per program). (3) Beyond the core the whole-program statement is explored by an executable oracle — the reference semantics of the "
          "dialect (PV.Src) and the IC10 machine (PV.IC10), hand-written Lean specifications compiled into pvdrv, run each generated source program and the real emitted code against the same pseudo-random device "
          "environments and compare effect traces (prefix rule for endless programs). The reference semantics PV.Src is itself validated against CPython on generated programs (stream refsem: same abstract program printed as plain Python over ENV/EFF, executed by the interpreter on a recorded environment). "
-         "Streams: core, functions, call-heavy, incore / incoref / incoren / incorei (the last under the default options with inlining), refsem; behaviour-neutral options randomised; witnesses of known findings F-C01-a/c/f/h/i "
+         "Streams: core, functions, call-heavy, incore / incoref / incoren / incorei (the last under the default options with inlining), refsem; behaviour-neutral options randomised; witnesses of known findings F-C01-a/c/f/h-q "
          "printed as KNOWN-FINDING. Level 'other' because for inlined functions, tail calls, the push/pop convention, for-loops over lists and constant lists the deciding method is differential testing against a formal semantics.",
          TB + "PV.Src and PV.IC10 semantics are trusted hand-written specifications (not validated against the game); PV.Flatten is an unproved executable model of the front end (checked per program against PV.Src "
          "and against the real pre-allocation code; proved against PV.Src on the fragment of PV.Front); NaN / non-finite values outside the compared domain; 128-instruction tick budget not modelled.",
